@@ -13,6 +13,8 @@ running the loop to quiescence:
   ["C", r]               task r .cancel()
   ["A", dt]              virtual time advances dt ticks (1/4096 s)
   ["PC"] / ["PE"]        peer resets / peer half-closes (FIN)
+  ["LC", v]              the connection is closed LOCALLY by another task while callers are in flight / queued:
+                         the driver task awaits connection.close() (v even) or pairing.close() (v odd)
 
 Outputs per step (canonical strings, time in ticks since the secure session was up):
   w<r>@t  request r's bytes reached the accessory      d<r>:<resp<n>|disc|canc|...>@t  caller r completed
@@ -27,6 +29,8 @@ Oracle (independent of the model, computed from what the accessory side and the 
   response-delivered-twice
   not-abandoned-after-cancel | -timeout   a written request was cancelled / is 30 s old and the transport is still open
   pending-after-abandon    a caller still pending at the end of the step in which the transport closed
+  pending-after-local-close  the same when the step was a local close() by another task (the caller is left to its
+                           own 30 s timer = hang on a connection that no longer exists)
   write-after-abandon      request bytes written after the transport was abandoned
   late-request-not-refused a request issued after the abandonment did not fail with the disconnection error at once
   hang                     a caller still pending after 31 s of silence
@@ -258,6 +262,11 @@ def run_impl(hist, cap=1):
                     tr.peer_reset()
                 elif k == "PE":
                     tr.peer_fin()
+                elif k == "LC":
+                    if ev[1] % 2 == 0:
+                        await conn.close()
+                    else:
+                        await p.close()
                 else:
                     raise ValueError("bad event %r" % (ev,))
                 await settle()
@@ -361,7 +370,11 @@ def oracle(hist, res):
                 if r not in done and stp["now"] is not None and stp["now"] >= wt + T30:
                     bad.append(("not-abandoned-after-timeout",
                                 f"step {i}: request {r} written at {wt} still pending at {stp['now']} (>= 30 s)"))
-            if stp["closing"] and stp["pending"]:
+            if stp["closing"] and stp["pending"] and ev[0] == "LC":
+                bad.append(("pending-after-local-close",
+                            f"step {i}: connection closed locally (close() by another task) but callers {stp['pending']} are "
+                            f"still pending; they are only released by their own 30 s timers"))
+            elif stp["closing"] and stp["pending"]:
                 bad.append(("pending-after-abandon",
                             f"step {i} ({ev[0]}): transport closed but callers {stp['pending']} are still pending"))
             if was_abandoned and ev[0] == "I":
@@ -404,6 +417,8 @@ def ev_tok(ev):
         return "C%d" % ev[1]
     if k == "A":
         return "A%d" % ev[1]
+    if k == "LC":
+        return "LC"
     return k
 
 
@@ -475,6 +490,7 @@ def gen_exhaustive(drv, cap, depth, rich, max_issue, max_frag):
                         letters.append(["A", T30])
                 letters.append(["PC"])
                 letters.append(["PE"])
+                letters.append(["LC", i])
             for ev in letters:
                 m = dict(frag=meta["frag"] + (ev[0] == "F"), lastA=ev[0] == "A",
                          closed_len=meta["closed_len"] + (0 if st["open"] else 1))
@@ -528,7 +544,7 @@ def gen_random(r, n, maxlen):
             elif x < 0.96 and issued and (not calm or r.random() < 0.3):
                 h.append(["C", r.randrange(issued)])
             elif x < 0.975 and not calm:
-                h.append(["PC"] if r.random() < 0.5 else ["PE"])
+                h.append(r.choice([["PC"], ["PE"], ["LC", i]]))
                 closed_at = closed_at if closed_at is not None else i
             elif x < 0.985 and not calm:
                 h.append(["D", [["O", 10 * i]]])
@@ -554,6 +570,10 @@ DIRECTED = [
     (1, [["I"], ["F", 1], ["C", 0], ["D", [["H", 1]]], ["I"]]),
     (1, [["I"], ["F", 2], ["A", T30], ["D", [["H", 1]]], ["I"]]),
     (1, [["I"], ["I"], ["F", 0], ["PE"], ["D", [["H", 1]]]]),
+    (1, [["I"], ["LC", 0], ["I"]]),
+    (1, [["I"], ["I"], ["A", 7], ["LC", 1], ["I"], ["A", T30]]),
+    (2, [["I"], ["I"], ["I"], ["D", [["H", 1]]], ["LC", 0], ["D", [["H", 2]]], ["I"]]),
+    (1, [["I"], ["C", 0], ["LC", 0], ["I"]]),
 ]
 
 
@@ -565,6 +585,7 @@ VM_EXAMPLES = [
     ("run 1 122880 D:H5 I", "c@0,x@0|d0:disc@0"),
     ("run 1 122880 I I PE D:H1 I", "w0@0||d0:disc@0,d1:disc@0,x@0||d2:disc@0"),
     ("run 2 122880 I I I D:H1,H2,H3", "w0@0|w1@0||d0:resp1@0,d1:resp2@0,c@0,d2:disc@0,x@0"),
+    ("run 1 122880 I I A7 LC I A122880", "w0@0|||d0:disc@7,d1:disc@7,x@7|d2:disc@7|"),
 ]
 
 
@@ -699,7 +720,7 @@ def run(ctx):
         cov.extra["exhaustive_part"] = exh_info
         cov.extra["exhaustive_alphabet"] = (
             "open: I (<= max_issue callers), D[H], D[E], F (<= max_frag), C r for every pending r and one completed r, "
-            "A 1 s, A 29 s (quick: never two A in a row), PC, PE"
+            "A 1 s, A 29 s (quick: never two A in a row), PC, PE, LC (local close() by another task)"
             + "; rich alphabet (thorough, see exhaustive_part) adds D[H,H], D[E,H], D[H,E], D[O], A 30 s and consecutive A"
             + "; after the transport closed: at most two more events from {I, D[H], A 30 s}; every history is followed by 31 s of silence")
         n_rand = 2000 if tier == "quick" else 120000
